@@ -37,12 +37,12 @@ def run(ctx):
         if is_exec:
             vamm_v = st.msgfield("vamm") if hasattr(st, "msgfield") else None
             if root == "Liquidate":
-                trader_ok = lambda t, st=st: contains(t, st.msgfield("trader"))
+                trader_ok = lambda t, st=st: same_address(ix, t, st.msgfield("trader"))
                 who = "msg.trader"
             else:
                 trader_ok = lambda t, st=st: t == st.sender
                 who = "info.sender"
-            vamm_ok = lambda v, vamm_v=vamm_v: vamm_v is not None and contains(v, vamm_v)
+            vamm_ok = lambda v, vamm_v=vamm_v: vamm_v is not None and same_address(ix, v, vamm_v)
         else:
             trader_ok = lambda t: is_tmp_field(ix, t, "trader")
             vamm_ok = lambda v: is_tmp_field(ix, v, "vamm")
@@ -84,8 +84,8 @@ def run(ctx):
                 t0 = idt.origin(t, "trader", 8)
                 v0 = idt.origin(v, "vamm", 8)
                 if depth == 0:
-                    okt = (t0 == st.sender) or (root == "Liquidate" and contains(t0, st.msgfield("trader")))
-                    okv = contains(v0, st.msgfield("vamm"))
+                    okt = (t0 == st.sender) or (root == "Liquidate" and same_address(ix, t0, st.msgfield("trader")))
+                    okv = same_address(ix, v0, st.msgfield("vamm"))
                 else:
                     okt = is_tmp_field(ix, t0, "trader")
                     okv = is_tmp_field(ix, v0, "vamm")
